@@ -31,8 +31,20 @@ def builder_fields(checker_rs):
 
 
 class SpawnExecutor(BlockExecutor):
+    def eval_rv(self, st, rv):
+        v = super().eval_rv(st, rv)
+        if rv[0] == "agg" and isinstance(rv[1], str) and rv[1].startswith("{closure@") and v[0] == "struct":
+            st.events.append(("closure_built", rv[1], v, dict(st.heap)))
+        return v
+
     def call(self, st, body, t):
         f = t.args["func"]
+        mq = re.search(r"VecDeque::<.*>::(push_back|push_front)$", f)
+        if mq:
+            args = [self.read(st, a) for a in t.args["args"]]
+            if args[1][0] == "struct":
+                st.events.append(("init_push", [st.heap[c] for _, c in args[1][1]]))
+            return ("opaque", "unit")
         if re.search(r"Builder::spawn::<\{closure@", f):
             args = [self.read(st, a) for a in t.args["args"]]
             st.events.append(("spawn_worker", args[-1], dict(st.heap)))
@@ -116,6 +128,126 @@ def obligations(name, mir_text, checker_rs):
         elif spawned or o.kind == "return":
             add(f"path {i}: the initial states are pushed to the job market as one batch (exactly one push)", pushes == 1, g)
     if n_spawn == 0:
+        n_spawn = _via_local_closure(name, mir_text, outs, opt_fields, add)
+    if n_spawn == 0:
         raise Unsupported(f"{name} spawn: no worker thread creation found on any path")
     info = {"function": body.name, "blocks": len(body.blocks), "loops_havocked": [f"bb{h}" for h in heads], "paths": len(outs), "builder_fields": fields}
     return res, info
+
+
+def _via_local_closure(name, mir_text, spawn_outs, opt_fields, add):
+    """The worker threads are created inside a local closure of spawn() (e.g. `(0..n).map(spawn_worker)`):
+    (1) inside that closure the worker is handed the captured values unchanged, (2) spawn() builds
+    the closure with references to locals that hold the options unchanged."""
+    n = 0
+    for f in split_functions(mir_text):
+        hdr = f.split("\n", 1)[0]
+        m = re.match(rf"^fn (?:checker::)?{name}::<impl at src/checker/{name}\.rs[^>]*>::spawn::(\{{closure#\d+\}})\(_1: (&(?:mut )?)?(\{{closure@[^}}]*\}})", hdr)
+        if not m or "Builder::spawn::<{closure@" not in f:
+            continue
+        by_ref, span = bool(m.group(2)), m.group(3)
+        body = parse_body(f)
+        ex = SpawnExecutor({Executor.short(body): body})
+        ex.job_types, ex.depth_idx = [], None
+        heads = sorted(h for h in loop_heads(body) if not body.blocks[h].cleanup)
+        ex.loop_havoc = {h: _assigned(body, _natural_loop(body, h)) for h in heads}
+        ex.stop_blocks = set()
+        st = State()
+        caps = {}
+        for mm in re.finditer(r"debug (\w+) => \(\*\(\(\*_1\)\.(\d+): &|debug (\w+) => \(\*\(_1\.(\d+): &|debug (\w+) => \(\(\*_1\)\.(\d+): |debug (\w+) => \(_1\.(\d+): ", f):
+            g = mm.groups()
+            if g[0]:
+                caps[int(g[1])] = (g[0], True)
+            elif g[2]:
+                caps[int(g[3])] = (g[2], True)
+            elif g[4]:
+                caps[int(g[5])] = (g[4], False)
+            else:
+                caps[int(g[7])] = (g[6], False)
+        if not caps:
+            continue
+        cells = []
+        for i in range(max(caps) + 1):
+            nm, isref = caps.get(i, (f"f{i}", False))
+            v = ("opaque", f"cap.{nm}")
+            cells.append((i, st.alloc(("ref", st.alloc(v)) if isref else v)))
+        env = ("struct", tuple(cells))
+        st.locals[body.params[0]] = st.alloc(("ref", st.alloc(env)) if by_ref else env)
+        for p in body.params[1:]:
+            st.locals[p] = st.alloc(("opaque", f"param{p}"))
+        for i, o in enumerate(ex.run(body, st, 0)):
+            if o.kind == "panic":
+                continue
+            g = z3.And(*o.st.pc) if o.st.pc else z3.BoolVal(True)
+            for e in o.st.events:
+                if e[0] != "spawn_worker":
+                    continue
+                n += 1
+                clo, heap = e[1], e[2]
+                if clo[0] != "struct" or len(clo) < 4:
+                    raise Unsupported("worker closure environment is not an aggregate with named captures")
+                wenv = {nm: heap[c] for (idx, c), nm in zip(clo[1], clo[3])}
+                for fn in ("target_max_depth", "target_state_count"):
+                    if fn in wenv:
+                        ok = wenv[fn] == ("opaque", f"cap.{fn}")
+                        add(f"local closure {m.group(1)} path {i}: the worker is handed the captured {fn} unchanged", ok, g, **({} if ok else {"witness": {"checker": name, "handed": str(wenv[fn])[:80]}}))
+                if "target_max_depth" not in wenv:
+                    add(f"local closure {m.group(1)} path {i}: the worker is handed the captured target_max_depth unchanged", False, g, witness={"checker": name, "handed": "nothing (not captured)"})
+        # (2) what spawn() puts into that closure
+        built = 0
+        for i, o in enumerate(spawn_outs):
+            if o.kind == "panic":
+                continue
+            g = z3.And(*o.st.pc) if o.st.pc else z3.BoolVal(True)
+            for e in o.st.events:
+                if e[0] == "closure_built" and e[1] == span:
+                    built += 1
+                    clo, heap = e[2], e[3]
+                    cenv = {nm: heap[c] for (idx, c), nm in zip(clo[1], clo[3])}
+                    for fn in ("target_max_depth", "target_state_count"):
+                        if fn not in cenv:
+                            continue
+                        v = cenv[fn]
+                        if v[0] == "ref":
+                            v = heap[v[1]]
+                        ok = v == opt_fields[fn]
+                        add(f"path {i}: the closure that creates the workers captures options.{fn} unchanged", ok, g, **({} if ok else {"witness": {"checker": name, "captured": str(v)[:80]}}))
+        if built == 0:
+            raise Unsupported(f"{name} spawn: the local closure that creates the workers is never built")
+    return n
+
+
+def initial_depth_in_spawn(name, mir_text):
+    """Fallback of blockloop.initial_depth: the initial jobs are built in spawn() itself (a loop with
+    push_back) rather than in a closure: every job tuple pushed there carries depth 1."""
+    text = None
+    for f in split_functions(mir_text):
+        if re.match(rf"^fn (?:checker::)?{name}::<impl at src/checker/{name}\.rs[^>]*>::spawn\(", f.split("\n", 1)[0]):
+            text = f
+    if text is None:
+        raise Unsupported(f"{name}: spawn() not found in the MIR")
+    body = parse_body(text)
+    ex = SpawnExecutor({Executor.short(body): body})
+    ex.job_types, ex.depth_idx = [], None
+    heads = sorted(h for h in loop_heads(body) if not body.blocks[h].cleanup)
+    ex.loop_havoc = {h: _assigned(body, _natural_loop(body, h)) for h in heads}
+    ex.stop_blocks = set()
+    st = State()
+    st.locals[body.params[0]] = st.alloc(("opaque", "options"))
+    res = []
+    for i, o in enumerate(ex.run(body, st, 0)):
+        if o.kind == "panic":
+            continue
+        g = z3.And(*o.st.pc) if o.st.pc else z3.BoolVal(True)
+        for e in o.st.events:
+            if e[0] != "init_push":
+                continue
+            ints = [v for v in e[1] if v[0] == "int"]
+            if len(ints) != 1:
+                raise Unsupported(f"{name} spawn: cannot identify the depth component of an initial job ({[v[0] for v in e[1]]})")
+            r, m = _check([], g, ints[0][1] != 1)
+            res.append({"obligation": f"{name} spawn: an initial state is queued with depth 1", "result": "unsat" if r == z3.unsat else ("sat" if r == z3.sat else str(r)),
+                        **({"witness": {"checker": name, "initial_depth": m.eval(ints[0][1], model_completion=True).as_long()}} if m is not None else {})})
+    if not res:
+        raise Unsupported(f"{name}: no place where spawn() builds the initial jobs was found")
+    return res
